@@ -187,7 +187,10 @@ META = {
                   "history that fits its capacity; nothing stamped after T and no None/NaN is ever passed; a value is emitted iff "
                   "that sequence is non-empty. The model is tied to the code by replaying recorded runs of the real Resampler "
                   "through it inside Coq (every passed sequence, emitted None/value, sampling period, capacity compared exactly).",
-    "level_note": "Oracle inputs (not proved): the float estimate of the input sampling period and the resized buffer length. The "
+    "level_note": "Oracle inputs (not proved): the float estimate of the input sampling period and the resized buffer length; on every "
+                  "compared run they are checked against exact rational specifications (estimate = (T - start)/received within 1 us, "
+                  "capacity = clamped ceil of the documented quotient, neighbouring integer allowed only within 1e-9 of an integer). "
+                  "Fixed finding F24 (c9dba8f): an estimate rounding to zero killed the series; the model discards a zero estimate. The "
                   "capacity is read from the private deque (read-only) because the public API does not expose it. Histories that "
                   "are not time-ordered are outside the property's domain: they are still compared model-vs-code exactly.",
 }
